@@ -306,8 +306,9 @@ func (h *hist) dagrun(thorough bool) {
 		}
 		os.RemoveAll(dir)
 	}
-	// batchings of the consensus passes (static validator set only)
-	if !h.cfg.dyn {
+	// batchings of the consensus passes (static validator set only; not on the directed -split DAGs: every
+	// difference there is the known batching finding and the undecided rounds make it near certain)
+	if !h.cfg.dyn && !h.cfg.split {
 		for _, b := range []int{2, 3, 5, 7, 11, 0} {
 			o := h.feed(fmt.Sprintf("batch%d", b), nid(), ids, hg.NewInmemStore(big), b, false)
 			before := w.Violations
